@@ -72,6 +72,12 @@ Classes ==
        Cls("route_victim_origin", "route", TRUE, "me", "victim", "na"),
        Cls("route_victim_fwd", "route", TRUE, "victim", "me", "na"),
        Cls("route_other_fwd", "route", TRUE, "other", "me", "yes"),
+       \* the session claims to be the node's OTHER, well-behaved peer (complete impersonation), or lies about that
+       \* peer's adjacency: refused as already connected / relayed like any third-party update, and the well-behaved
+       \* peer's own session is not touched
+       Cls("route_good_fwd", "route", TRUE, "good", "good", "yes"),
+       Cls("route_good_fwd_me", "route", TRUE, "good", "me", "yes"),
+       Cls("route_good_origin", "route", TRUE, "me", "good", "no"),
        Cls("ad_notjson", "ad", FALSE, "na", "na", "na"),
        Cls("ad_null", "ad", TRUE, "na", "na", "na"),
        Cls("ad_emptyobj", "ad", TRUE, "na", "na", "na"),
@@ -99,7 +105,7 @@ Effect(s, c) ==
   ELSE IF c.t # "route" \/ ~c.ok THEN s                       \* logged and ignored (incl. zero-length after the repair)
   ELSE IF s.phase = "pre" THEN
          IF c.fwd \in {"me", "other"} THEN St("est", c.fwd, FALSE)   \* admitted under the announced id
-         ELSE St("closed", "", FALSE)                               \* empty id or the node's own id
+         ELSE St("closed", "", FALSE)                               \* empty id, the node's own id, or an id already connected
   ELSE \* established
        IF c.fwd # s.peer THEN St("closed", s.peer, s.listed)
        ELSE IF c.origin # s.peer THEN s
